@@ -731,7 +731,13 @@ class Engine:
                 return h(self, st, args, site)
             if self.lenient:
                 return [(st, Opaque(sh))]
-            raise Unsupported("call of external %s" % sh)
+            # unknown external: its results are unconstrained (abstracted call); obligations that now fail are reported
+            # without a failing input, never silently accepted
+            self.stats["abstracted"].add("external:" + sh)
+            if f is None:
+                raise Unsupported("call of unknown function %s" % sh)
+            vals = [self.havoc_external(t, sh) for t in f.results]
+            return [(st, None if not vals else (vals[0] if len(vals) == 1 else TupleV(vals)))]
         if self.depth > self.max_depth:
             raise Unsupported("call depth exceeded at %s" % sh)
         self.stats["inlined"].add(sh)
@@ -1114,6 +1120,20 @@ class Engine:
                 raise Unsupported(op + " in " + site)
         else:
             raise Unsupported("instruction %s" % op)
+
+    def havoc_external(self, tid, nm):
+        k = self.p.kind(tid)
+        if k == "basic":
+            v = self.fresh(tid, "external." + nm)
+            return v
+        if k == "struct":
+            return StructV([self.havoc_external(f["t"], nm) for f in self.p.struct_fields(tid)])
+        if k == "array":
+            u = self.p.under(tid)
+            if self.big_array(tid):
+                return self.fresh(tid, "external." + nm)
+            return ArrV([self.havoc_external(u["elem"], nm) for _ in range(u["len"])])
+        return self.zero(tid)
 
     def split_load(self, fr, ins, x):
         """load through a symbolic index whose candidates are references that cannot be merged (slices, closures, ...):
